@@ -218,6 +218,10 @@ class Ctx:
         lines = []
         seen_keys = set()
         os.makedirs(os.path.join(OUT, "replays", self.prop), exist_ok=True)
+        # replay files of an earlier run of the same (tier, seed) do not outlive it
+        for fn in os.listdir(os.path.join(OUT, "replays", self.prop)):
+            if fn.startswith("%s-%d-" % (self.tier, self.seed)):
+                os.unlink(os.path.join(OUT, "replays", self.prop, fn))
         grouped = {}
         for key, what, replay in self.findings:
             if key not in grouped:
